@@ -246,13 +246,15 @@ where
             _ => {
                 let mut updated = false;
                 let mut offset = 0;
+                //new items are appended (and sorted afterwards), only the original part is sorted and can be searched
+                let len = self.array.len();
                 for item in other.iter() {
                     if self.sorted && other.sorted {
                         //optimisation if both are sorted
-                        match self.array[offset..].binary_search(&item) {
-                            Ok(index) => offset = index + 1,
+                        match self.array[offset..len].binary_search(&item) {
+                            Ok(index) => offset += index + 1,
                             Err(index) => {
-                                offset = index + 1;
+                                offset += index;
                                 updated = true;
                                 self.add_unchecked(item);
                             }
@@ -310,11 +312,11 @@ where
                 //optimisation if both are sorted
                 match other.array[offset..].binary_search(x) {
                     Ok(index) => {
-                        offset = index + 1;
+                        offset += index + 1;
                         true
                     }
                     Err(index) => {
-                        offset = index + 1;
+                        offset += index;
                         false
                     }
                 }
